@@ -1,4 +1,4 @@
-\* implementation as it is now: TLC must exhibit a (listfile) that misses a live name (substring test)
+\* implementation at b13f4b7: TLC must exhibit a (listfile) that misses a live name (substring test; fixed by 6cf538f)
 CONSTANTS
   H = 4
   UNames <- MCNames
@@ -14,6 +14,6 @@ CONSTANTS
   Ver = 1
   MaxCalls = 4
   MCToks = {"t1"}
-SPECIFICATION CodeNowSpec
+SPECIFICATION Code1Spec
 INVARIANT ListfileExact
 CHECK_DEADLOCK FALSE
